@@ -51,7 +51,7 @@ class Ctx:
     def release(self, cfg=None):
         k = config_name(cfg)
         self._an.pop(k, None)
-        for s in ("O0", "ship"):
+        for s in ("O0", "ship", "raw"):
             self._prog.pop((k, s), None)
             self.ws.drop(cfg, s)
 
@@ -73,7 +73,10 @@ class Ctx:
         d = tempfile.mkdtemp(prefix="skvfx-", dir=self.ws.tmp)
         base = os.path.join(d, "fx")
         inc = ["-I" + os.path.join(REPO, "include"), "-I" + os.path.join(REPO, "src")]
-        if shape == "O0":
+        if shape == "raw":
+            cmd = [CLANG, "-std=c99"] + inc + list(flags) + ["-O0", "-g", "-fno-discard-value-names", "-S", "-emit-llvm", src, "-o", base + ".ll", "-w"]
+            p = subprocess.run(cmd, capture_output=True, text=True)
+        elif shape == "O0":
             cmd = [CLANG, "-std=c99"] + inc + list(flags) + ["-O0", "-Xclang", "-disable-O0-optnone", "-g",
                                                               "-fno-discard-value-names", "-S", "-emit-llvm", src, "-o", base + ".raw.ll", "-w"]
             p = subprocess.run(cmd, capture_output=True, text=True)
